@@ -19,6 +19,7 @@ from ..entity_query_language.symbolic import (
     The,
     Variable,
     Literal,
+    Entity,
 )
 
 from .dao import get_dao_class
@@ -397,6 +398,11 @@ class EQLTranslator:
 
     def translate(self) -> None:
         """Translate the EQL query to SQL."""
+        if not isinstance(self.select_like, Entity):
+            raise UnsupportedQueryTypeError(
+                f"Only entity(...) queries can be translated, not {type(self.select_like).__name__}."
+            )
+
         dao_class = get_dao_class(self.select_like.selected_variable._type_)
         if dao_class is None:
             raise MissingDAOError(
